@@ -23,7 +23,7 @@ type op struct {
 
 func (o op) String() string {
 	switch o.K {
-	case "new", "newfail", "newtimeout", "newnosend", "shutdown", "extinc", "extdec":
+	case "new", "newfail", "newtimeout", "newnosend", "newclosefin", "newcloserst", "shutdown", "extinc", "extdec":
 		return o.K
 	}
 	return fmt.Sprintf("%s(%d)", o.K, o.A)
@@ -110,7 +110,7 @@ func (o obs) coq() string {
 func (w *world) enabled(full bool) []op {
 	ops := []op{{K: "new"}, {K: "newfail"}}
 	if full {
-		ops = append(ops, op{K: "newnosend"}, op{K: "newtimeout"})
+		ops = append(ops, op{K: "newnosend"}, op{K: "newtimeout"}, op{K: "newclosefin"}, op{K: "newcloserst"})
 	}
 	for i, l := range w.leases {
 		if !l.live() {
@@ -164,6 +164,29 @@ func (w *world) apply(o op) int {
 		return w.newStream(dialRefused, true)
 	case "newtimeout":
 		return w.newStream(dialTimeout, true)
+	case "newclosefin", "newcloserst":
+		// the upstream closes the fresh connection on accept and Connect() returns only after mosn noticed: the close event
+		// is delivered inside the pool's connect path (between the dial and the counting / leasing of the client)
+		mode, ev := "fin", "EvRemote"
+		if o.K == "newcloserst" {
+			mode, ev = "rst", "EvReadErr"
+		}
+		nc, nl, nf := len(w.clients), len(w.leases), w.failedDials
+		w.armWindow(mode)
+		res := w.newStream(dialOK, true)
+		w.armWindow("")
+		w.settleWindow()
+		switch {
+		case w.failedDials > nf:
+			w.lastCoq = []string{"NewStream DialRefused true"} // the RST reached the dialler first: a failed dial
+		case len(w.clients) > nc && len(w.leases) > nl:
+			w.lastCoq = []string{"NewStream DialOk false", fmt.Sprintf("ConnClose %d %s", nc, ev), fmt.Sprintf("Send %d", nl)}
+		case len(w.clients) > nc:
+			w.lastCoq = []string{"NewStream DialOk false", fmt.Sprintf("ConnClose %d %s", nc, ev)}
+		default:
+			w.lastCoq = []string{"NewStream DialOk true"} // no dial happened (idle connection reused / refused before)
+		}
+		return res
 	case "send":
 		w.send(w.leases[o.A])
 	case "resp":
@@ -275,7 +298,7 @@ func (w *world) check(fs *finderState, o op, ob obs) []finding {
 	// dirty reuse: the lease just granted sits on a connection with a reset exchange in its past
 	if ob.Res == resLeased && ob.ResCli >= 0 {
 		nl := w.leases[len(w.leases)-1]
-		if w.clients[nl.cli].closedMosnSide() {
+		if w.clients[nl.cli].closedMosnSide() && !strings.HasPrefix(o.K, "newclose") {
 			add("closed-connection-leased", fmt.Sprintf("stream %d was leased connection %d, which is closed", nl.idx, nl.cli))
 		}
 		for _, l := range w.leases {
@@ -306,7 +329,15 @@ func (w *world) check(fs *finderState, o op, ob obs) []finding {
 	for _, c := range w.clients {
 		if c.closedMosnSide() {
 			if idleSet[c.idx] > 0 && fs.first(fmt.Sprint("closed-idle", c.idx)) {
-				add("closed-connection-in-idle-list:after-"+opClass, fmt.Sprintf("connection %d is closed but still in the idle list", c.idx))
+				evs := ""
+				w.host.mu.Lock()
+				if c.idx < len(w.host.evs) {
+					w.host.evs[c.idx].mu.Lock()
+					evs = strings.Join(w.host.evs[c.idx].evs, ",")
+					w.host.evs[c.idx].mu.Unlock()
+				}
+				w.host.mu.Unlock()
+				add("closed-connection-in-idle-list:after-"+opClass, fmt.Sprintf("connection %d is closed but still in the idle list (events delivered by the connection: %s)", c.idx, evs))
 			}
 			continue
 		}
@@ -373,6 +404,7 @@ type histResult struct {
 	maxReq   uint64
 	ops      []op
 	obs      []obs
+	coqOps   [][]string // model operations each harness op stands for
 	findings []finding
 	timeouts []string
 	closeEvs []string // close event kinds mosn reported for the connections of this history
@@ -391,7 +423,8 @@ func (h *histResult) key() string {
 func (h *histResult) coq() string {
 	var steps []string
 	for i, o := range h.ops {
-		steps = append(steps, fmt.Sprintf("(%s, %s)", o.coq(), h.obs[i].coq()))
+		_ = o
+		steps = append(steps, fmt.Sprintf("(%s, %s)", CoqList(h.coqOps[i]), h.obs[i].coq()))
 	}
 	kind := "Http1"
 	if h.kind == kPingPong {
@@ -422,10 +455,15 @@ func runHistory(kind poolKind, maxConn, maxReq uint64, depth int, full bool, pro
 		if o == nil {
 			break
 		}
+		w.lastCoq = nil
 		res := w.apply(*o)
 		ob := w.observe(res)
 		h.ops = append(h.ops, *o)
 		h.obs = append(h.obs, ob)
+		if w.lastCoq == nil {
+			w.lastCoq = []string{o.coq()}
+		}
+		h.coqOps = append(h.coqOps, w.lastCoq)
 		h.findings = append(h.findings, w.check(fs, *o, ob)...)
 	}
 	if probe {
@@ -494,6 +532,9 @@ func c09(args []string) int {
 	run := NewRun("C09", args)
 	log.DefaultLogger.SetLogLevel(log.FATAL)
 	log.Proxy.SetLogLevel(log.FATAL)
+	if os.Getenv("VH_LOG") != "" {
+		log.DefaultLogger.SetLogLevel(log.ERROR)
+	}
 	registerProtocols()
 	if len(os.Getenv("VH_MX_ONLY")) > 0 {
 		c09mx(run)
